@@ -2,8 +2,8 @@
 //! A lock-step reader walks the description and the registry together.
 
 use crate::checks::c01::truncate;
-use crate::drivers::*;
 use crate::checks::c12::js;
+use crate::drivers::*;
 use crate::engine::*;
 use crate::run::guarded;
 use crate::spm::*;
@@ -69,7 +69,11 @@ impl<'a> Reader<'a> {
             self.pos += s.chars().count();
             Ok(())
         } else {
-            Err(format!("expected `{s}` ({what}) at offset {}, found `{}`", self.pos, self.rest()))
+            Err(format!(
+                "expected `{s}` ({what}) at offset {}, found `{}`",
+                self.pos,
+                self.rest()
+            ))
         }
     }
 
@@ -78,7 +82,9 @@ impl<'a> Reader<'a> {
     }
 
     fn ty(&self, id: u32) -> Result<&'a Type<PortableForm>, String> {
-        self.reg.resolve(id).ok_or_else(|| format!("id {id} not in registry"))
+        self.reg
+            .resolve(id)
+            .ok_or_else(|| format!("id {id} not in registry"))
     }
 
     /// an identifier must not continue after `name` (so that `N` does not match `N1`)
@@ -130,7 +136,9 @@ impl<'a> Reader<'a> {
                     self.name_form(c.type_param.id)?;
                     self.eat(">", "end of Compact")
                 }
-                TypeDef::BitSequence(_) => self.eat_ident("BitSequence", "bit sequence in name form"),
+                TypeDef::BitSequence(_) => {
+                    self.eat_ident("BitSequence", "bit sequence in name form")
+                }
                 TypeDef::Composite(_) | TypeDef::Variant(_) => self.ident_and_params(ty),
             }
         })();
@@ -146,7 +154,10 @@ impl<'a> Reader<'a> {
         self.eat(ident, "type name")?;
         if ty.type_params.is_empty() {
             if matches!(self.text.get(self.pos), Some(c) if c.is_alphanumeric() || *c == '_') {
-                return Err(format!("expected type name `{ident}` but the text continues with `{}`", self.rest()));
+                return Err(format!(
+                    "expected type name `{ident}` but the text continues with `{}`",
+                    self.rest()
+                ));
             }
             return Ok(());
         }
@@ -174,7 +185,11 @@ impl<'a> Reader<'a> {
                 self.eat(n, "field name")?;
                 self.eat(":", "field name separator")?;
             }
-            let boxed = f.type_name.as_ref().map(|t| t.contains("Box<")).unwrap_or(false);
+            let boxed = f
+                .type_name
+                .as_ref()
+                .map(|t| t.contains("Box<"))
+                .unwrap_or(false);
             if boxed {
                 self.eat("Box<", "Box wrapper recorded in the field's type name")?;
             }
@@ -186,7 +201,10 @@ impl<'a> Reader<'a> {
                 self.eat(",", "field separator")?;
             }
         }
-        self.eat(if named { "}" } else { ")" }, "end of field list (field count)")
+        self.eat(
+            if named { "}" } else { ")" },
+            "end of field list (field count)",
+        )
     }
 
     /// a position expecting type `id`: expanded form or name form
@@ -220,8 +238,13 @@ impl<'a> Reader<'a> {
                             self.eat(&var.name, "variant name")?;
                             if !var.fields.is_empty() {
                                 self.fields(&var.fields)?;
-                            } else if matches!(self.text.get(self.pos), Some(c) if c.is_alphanumeric() || *c == '_' || *c == '(' || *c == '{') {
-                                return Err(format!("variant `{}` has no fields but the text continues with `{}`", var.name, self.rest()));
+                            } else if matches!(self.text.get(self.pos), Some(c) if c.is_alphanumeric() || *c == '_' || *c == '(' || *c == '{')
+                            {
+                                return Err(format!(
+                                    "variant `{}` has no fields but the text continues with `{}`",
+                                    var.name,
+                                    self.rest()
+                                ));
                             }
                             if i + 1 < v.variants.len() {
                                 self.eat(",", "variant separator")?;
@@ -291,7 +314,11 @@ fn reachable_defs(reg: &PortableRegistry, id: u32) -> BTreeSet<u32> {
             }
             TypeDef::Variant(v) => {
                 defs.insert(i);
-                stack.extend(v.variants.iter().flat_map(|v| v.fields.iter().map(|f| f.ty.id)));
+                stack.extend(
+                    v.variants
+                        .iter()
+                        .flat_map(|v| v.fields.iter().map(|f| f.ty.id)),
+                );
             }
             TypeDef::Sequence(s) => stack.push(s.type_param.id),
             TypeDef::Array(a) => stack.push(a.type_param.id),
@@ -311,7 +338,12 @@ fn strip_ws(s: &str) -> String {
     s.chars().filter(|c| !c.is_whitespace()).collect()
 }
 
-pub fn check_registry(reg: &PortableRegistry, ids: &[u32], replay: &dyn Fn(u32) -> Json, ctx: &mut Ctx) {
+pub fn check_registry(
+    reg: &PortableRegistry,
+    ids: &[u32],
+    replay: &dyn Fn(u32) -> Json,
+    ctx: &mut Ctx,
+) {
     let size = reg.types.len();
     for &id in ids {
         ctx.exec(2);
@@ -319,13 +351,21 @@ pub fn check_registry(reg: &PortableRegistry, ids: &[u32], replay: &dyn Fn(u32) 
         let formatted = guarded(|| type_description(id, reg, true));
         let plain = match plain {
             Err(p) => {
-                ctx.violation(format!("C13/panic/{}", truncate(&p, 40)), format!("type_description({id}) panics: {p}"), replay(id), size);
+                ctx.violation(
+                    format!("C13/panic/{}", truncate(&p, 40)),
+                    format!("type_description({id}) panics: {p}"),
+                    replay(id),
+                    size,
+                );
                 continue;
             }
             Ok(Err(e)) => {
                 ctx.violation(
                     "C13/error",
-                    format!("type_description({id}) on a well-formed registry fails: {}", truncate(&format!("{e}"), 160)),
+                    format!(
+                        "type_description({id}) on a well-formed registry fails: {}",
+                        truncate(&format!("{e}"), 160)
+                    ),
                     replay(id),
                     size,
                 );
@@ -337,10 +377,18 @@ pub fn check_registry(reg: &PortableRegistry, ids: &[u32], replay: &dyn Fn(u32) 
         let mut rd = Reader::new(reg, &plain);
         match rd.read(id) {
             Err(e) => {
-                let clause = e.split('(').nth(1).and_then(|s| s.split(')').next()).unwrap_or("mismatch").to_string();
+                let clause = e
+                    .split('(')
+                    .nth(1)
+                    .and_then(|s| s.split(')').next())
+                    .unwrap_or("mismatch")
+                    .to_string();
                 ctx.violation(
                     format!("C13/lockstep/{clause}"),
-                    format!("description of id {id} = `{}` does not read against the registry: {e}", truncate(&plain, 300)),
+                    format!(
+                        "description of id {id} = `{}` does not read against the registry: {e}",
+                        truncate(&plain, 300)
+                    ),
                     replay(id),
                     size,
                 );
@@ -361,7 +409,14 @@ pub fn check_registry(reg: &PortableRegistry, ids: &[u32], replay: &dyn Fn(u32) 
         let want = reachable_defs(reg, id);
         let missing: Vec<u32> = want.difference(&rd.expanded).copied().collect();
         if !missing.is_empty() {
-            let names: Vec<String> = missing.iter().map(|i| reg.resolve(*i).map(|t| t.path.segments.join("::")).unwrap_or_default()).collect();
+            let names: Vec<String> = missing
+                .iter()
+                .map(|i| {
+                    reg.resolve(*i)
+                        .map(|t| t.path.segments.join("::"))
+                        .unwrap_or_default()
+                })
+                .collect();
             ctx.violation(
                 "C13/never-expanded",
                 format!("description of id {id} = `{}` never writes out {:?} in full although they are reachable", truncate(&plain, 300), names),
@@ -370,8 +425,18 @@ pub fn check_registry(reg: &PortableRegistry, ids: &[u32], replay: &dyn Fn(u32) 
             );
         }
         match formatted {
-            Err(p) => ctx.violation("C13/format-panic", format!("type_description({id}, format) panics: {p}"), replay(id), size),
-            Ok(Err(e)) => ctx.violation("C13/format-error", format!("formatted description fails: {e}"), replay(id), size),
+            Err(p) => ctx.violation(
+                "C13/format-panic",
+                format!("type_description({id}, format) panics: {p}"),
+                replay(id),
+                size,
+            ),
+            Ok(Err(e)) => ctx.violation(
+                "C13/format-error",
+                format!("formatted description fails: {e}"),
+                replay(id),
+                size,
+            ),
             Ok(Ok(f)) => {
                 if strip_ws(&f) != strip_ws(&plain) {
                     ctx.violation(
@@ -392,7 +457,12 @@ pub fn worker_check(state: &Json, ctx: &mut Ctx) {
         let lo = range[0].as_u64().unwrap_or(0) as u32;
         let hi = range[1].as_u64().unwrap_or(0) as u32;
         let ids: Vec<u32> = (lo..hi).collect();
-        check_registry(&reg, &ids, &|id| json!({"check": "C13", "state": {"polkadot": [id, id + 1]}}), ctx);
+        check_registry(
+            &reg,
+            &ids,
+            &|id| json!({"check": "C13", "state": {"polkadot": [id, id + 1]}}),
+            ctx,
+        );
     } else {
         let prog: Program = serde_json::from_value(state["prog"].clone()).expect("program");
         let reg = elaborate(&prog).registry;
@@ -424,14 +494,19 @@ pub fn run(tier: &str, seed: u64) -> i32 {
         let (all, _, _) = enumerate(&d, if thorough { 2 } else { 1 }, 2_000_000);
         for (_, s) in all {
             if crate::checks::c05::wf5_ok(&s) {
-                states.push(js(json!({"prog": serde_json::to_value(s.program()).unwrap()})));
+                states.push(js(
+                    json!({"prog": serde_json::to_value(s.program()).unwrap()}),
+                ));
             }
         }
     }
     let mut st = isolated_sweep(
         &format!(
             "{} + D-generic x every id x {{plain, formatted}} (worker subprocesses)",
-            info.iter().map(|i| i.0.clone()).collect::<Vec<_>>().join(" + ")
+            info.iter()
+                .map(|i| i.0.clone())
+                .collect::<Vec<_>>()
+                .join(" + ")
         ),
         "C13",
         &states,
